@@ -73,7 +73,25 @@ Definition touch : M unit := fun s =>
 (* ------------------------------------------------------------------ configuration *)
 Record subsig := mksub { sub_name : string; sub_ret : vtype; sub_params : list vtype }.
 Record macsig := mkmac { mac_name : string; mac_rz : string; mac_ret : vtype; mac_params : list vtype }.
+(* Repair switches.  The FAITHFUL model is `no_fixes`.  Each switch repairs one known defect of the
+   pinned compiler; "the translation of p does not depend on switch i" is the decidable guard under
+   which the property theorems are stated, and the witness of each defect is a program on which the
+   switch matters. *)
+Record fixes := mkfx {
+  fx_cast_fill : bool;      (* D3: widening fill bit from the SOURCE signedness *)
+  fx_shift_promote : bool;  (* D1: promote the left operand of << >> *)
+  fx_bool_int : bool;       (* D2: ! && || yield an int (0/1), not the first operand's type *)
+  fx_cmp_promote : bool;    (* D13: integer promotion of comparison / ?: operands *)
+  fx_compound_conv : bool;  (* D14: compound assignment converts the result to the target type *)
+  fx_literals : bool;       (* D6: literal typing per C11 6.4.4.1, folding in the C result type with wrap-around *)
+  fx_divmod : bool;         (* D19: / and % convert their operands like the other arithmetic operators and are signed for signed types *)
+  fx_addr : bool            (* D20: the address operand of mem_load / mem_store is converted to the 32-bit address type *)
+}.
+Definition no_fixes := mkfx false false false false false false false false.
+Definition all_fixes := mkfx true true true true true true true true.
+
 Record config := mkcfg {
+  cfg_fx : fixes;
   cfg_subs : list subsig;
   cfg_macros : list macsig;
   cfg_params : list (string * vtype);       (* parameters of the routine being compiled *)
@@ -147,6 +165,10 @@ Definition mk_sequence (items : list item) : leff * bool :=
 
 Definition empty_eff : leff := mkle EEmpty [] true.
 
+Section Traverse.
+  Variable cfg : config.
+  Definition fx := cfg_fx cfg.
+
 (* ------------------------------------------------------------------ casts *)
 Definition lit_pure (t : vtype) (v : Z) : pure := PBv (vt_sg t) (vt_w t) v.
 
@@ -159,10 +181,11 @@ Definition init_a_cast (target : vtype) (p : pval) : M pval :=
   if eq then ret p else
   if vt_bool (pv_ty p) && negb (vt_bool target) then
     (* Ternary(pure, 1, 0) typed by its then-operand *)
-    do c <- ret (cond_wrap (match pv_kind p with KBoolOp => true | _ => false end) (rd p));
+    do c <- ret (cond_wrap (match pv_kind p with KBoolOp => true | KLit _ true => fx_bool_int fx | _ => false end) (rd p));
     ret (mkpv (PIte c (lit_pure target 1) (lit_pure target 0)) target KExec (pv_tmps p))
   else
-    ret (mkpv (cast_il_exec target (pv_ty p) (rd p)) target KExec (pv_tmps p)).
+    ret (mkpv (if fx_cast_fill fx then PCast (vt_w target) (if vt_sg (pv_ty p) then PMsb (rd p) else PBool false) (rd p)
+               else cast_il_exec target (pv_ty p) (rd p)) target KExec (pv_tmps p)).
 
 Definition promotion_cast (p : pval) : M pval :=
   do _ <- need_numeric (pv_ty p);
@@ -180,6 +203,16 @@ Definition cast_operands (imm_a : bool) (a b : pval) : M (pval * pval) :=
   do b' <- (if negb (N.eqb (vt_w cb) (vt_w (pv_ty b))) || negb (Bool.eqb (vt_sg cb) (vt_sg (pv_ty b))) then init_a_cast cb b else ret b);
   ret (a', b').
 
+(* repaired model only: a boolean used where the compiler performs no conversion (shift amount,
+   load/store address) becomes an int *)
+Definition int_of_bool (p : pval) : M pval :=
+  if fx_bool_int fx && vt_bool (pv_ty p) then init_a_cast (ty_int true 32) p else ret p.
+Definition addr_of (p0 : pval) : M pval :=
+  do p <- int_of_bool p0;
+  if fx_addr fx then (do eq <- ty_eq (pv_ty p) (ty_int false 32); if eq then ret p else
+                      if (vt_w (pv_ty p) =? 32)%N && negb (vt_tok (pv_ty p)) then ret p else init_a_cast (ty_int false 32) p)
+  else ret p.
+
 Definition as_pure (what : string) (i : item) : M pval :=
   match i with
   | IPure p => ret p
@@ -187,7 +220,8 @@ Definition as_pure (what : string) (i : item) : M pval :=
   | _ => fail ("non-pure operand in " +++ what)
   end.
 
-Definition is_boolop (p : pval) : bool := match pv_kind p with KBoolOp => true | _ => false end.
+Definition is_boolop (p : pval) : bool :=
+  match pv_kind p with KBoolOp => true | KLit _ true => fx_bool_int fx | _ => false end.
 Definition cond_of (p : pval) : pure := cond_wrap (is_boolop p) (rd p).
 
 (* ------------------------------------------------------------------ operands *)
@@ -237,7 +271,7 @@ Definition lower_reg (cls letters : string) (new : bool) : M pval :=
       end
   end.
 
-Definition lower_operand (cfg : config) (o : operand) : M item :=
+Definition lower_operand (o : operand) : M item :=
   match o with
   | OReg cls letters => do p <- lower_reg cls letters false; ret (IPure p)
   | ONewReg cls letters => do p <- lower_reg cls letters true; ret (IPure p)
@@ -265,7 +299,7 @@ Definition lower_operand (cfg : config) (o : operand) : M item :=
           ret (IPure (mkpv (PVarL letter) t (KVar letter) []))
       end
   | ONum v hex suffix =>
-      match number_vtype suffix with
+      match (if fx_literals fx then c11_literal_vtype v hex suffix else number_vtype suffix) with
       | Some t => do _ <- touch; ret (IPure (mkpv (lit_pure t v) t (KLit v false) []))
       | None => fail "Unsupported number postfix"
       end
@@ -291,12 +325,16 @@ Definition lower_operand (cfg : config) (o : operand) : M item :=
 
 (* ------------------------------------------------------------------ folding *)
 Definition promoted_or_self (t : vtype) : vtype := match promoted_vtype t with Some x => x | None => t end.
+Definition norm_lit (t : vtype) (z : Z) : Z := if vt_sg t then sval (vt_w t) z else wrap (vt_w t) z.
 Definition simplify_unary (u : Ast.unop) (p : pval) : option (M pval) :=
   match pv_kind p, u with
-  | KLit v _, UNot => let t := promoted_or_self (pv_ty p) in Some (ret (mkpv (lit_pure t (- v - 1)) t (KLit (- v - 1) false) []))
+  | KLit v _, UNot => let t := promoted_or_self (pv_ty p) in
+      let r := if fx_literals fx then norm_lit t (- v - 1) else - v - 1 in
+      Some (ret (mkpv (lit_pure t r) t (KLit r false) []))
   | KLit v _, UMinus =>
-      let t := set_signed_vt (promoted_or_self (pv_ty p)) in
-      Some (ret (mkpv (lit_pure t (- v)) t (KLit (- v) false) []))
+      let t := if fx_literals fx then promoted_or_self (pv_ty p) else set_signed_vt (promoted_or_self (pv_ty p)) in
+      let r := if fx_literals fx then norm_lit t (- v) else - v in
+      Some (ret (mkpv (lit_pure t r) t (KLit r false) []))
   | KLit v _, UPlus => let t := promoted_or_self (pv_ty p) in Some (ret (mkpv (lit_pure t v) t (KLit v false) []))
   | _, _ => None
   end.
@@ -387,11 +425,14 @@ Definition lower_binop (b : Ast.binop) (ia ib : item) : M item :=
       do a <- as_pure "arith" ia; do c <- as_pure "arith" ib;
       match pv_kind a, pv_kind c with
       | KLit va _, KLit vb _ =>
-          do '(ta, _) <- (match c11_vtypes (pv_ty a) (pv_ty c) with Some r => ret r | None => fail "TypeError" end);
+          do '(ta, _) <- (match c11_vtypes (if fx_literals fx then promoted_or_self (pv_ty a) else pv_ty a)
+                                           (if fx_literals fx then promoted_or_self (pv_ty c) else pv_ty c) with
+                          | Some r => ret r | None => fail "TypeError" end);
+          let nm := fun z => if fx_literals fx then norm_lit ta z else z in
           match b with
-          | BAdd => ret (IPure (mkpv (lit_pure ta (va + vb)) ta (KLit (va + vb) false) []))
-          | BSub => ret (IPure (mkpv (lit_pure ta (va - vb)) ta (KLit (va - vb) false) []))
-          | BMul => ret (IPure (mkpv (lit_pure ta (va * vb)) ta (KLit (va * vb) false) []))
+          | BAdd => ret (IPure (mkpv (lit_pure ta (nm (nm va + nm vb))) ta (KLit (nm (nm va + nm vb)) false) []))
+          | BSub => ret (IPure (mkpv (lit_pure ta (nm (nm va - nm vb))) ta (KLit (nm (nm va - nm vb)) false) []))
+          | BMul => ret (IPure (mkpv (lit_pure ta (nm (nm va * nm vb))) ta (KLit (nm (nm va * nm vb)) false) []))
           | BDiv => if vb =? 0 then fail "ZeroDivisionError"
                     else ret (IPure (mkpv (PRaw "$float") ta (KLitFloat (negb (va =? 0))) []))
           | _ => fail "Can not simplify '%' expression"
@@ -400,9 +441,11 @@ Definition lower_binop (b : Ast.binop) (ia ib : item) : M item :=
           match arith_of b with
           | Some o =>
               do '(a', c') <- (match b with
-                               | BMod => ret (a, c)
+                               | BMod => if fx_divmod fx then do pa <- promotion_cast a; do pc <- promotion_cast c; cast_operands false pa pc
+                                         else ret (a, c)
                                | _ => do pa <- promotion_cast a; do pc <- promotion_cast c; cast_operands false pa pc end);
-              ret (IPure (mkpv (arith_il_exec o (pv_ty a') (pv_ty c') (rd a') (rd c')) (pv_ty a') KExec (pv_tmps a' ++ pv_tmps c')))
+              let o' := if fx_divmod fx && vt_sg (pv_ty a') then (match o with RzIL.BDiv => BSDiv | RzIL.BMod => BSMod | x => x end) else o in
+              ret (IPure (mkpv (arith_il_exec o' (pv_ty a') (pv_ty c') (rd a') (rd c')) (pv_ty a') KExec (pv_tmps a' ++ pv_tmps c')))
           | None => fail "arith"
           end
       end
@@ -413,18 +456,24 @@ Definition lower_binop (b : Ast.binop) (ia ib : item) : M item :=
       ret (IPure (mkpv (bitop_il_exec (match b with BAnd => "&" | BOr => "|" | _ => "^" end) (pv_ty a') (rd a') (rd c'))
                        (pv_ty a') KExec (pv_tmps a' ++ pv_tmps c')))
   | BShl | BShr =>
-      do a <- as_pure "shift" ia; do c <- as_pure "shift" ib;
+      do a0 <- as_pure "shift" ia; do c0 <- as_pure "shift" ib; do c <- int_of_bool c0;
+      do a <- (if fx_shift_promote fx then promotion_cast a0 else ret a0);
       do _ <- need_numeric (pv_ty a);
       ret (IPure (mkpv (bitop_il_exec (match b with BShl => "<<" | _ => ">>" end) (pv_ty a) (rd a) (rd c))
                        (pv_ty a) KExec (pv_tmps a ++ pv_tmps c)))
   | BLt | BGt | BLe | BGe | BEq | BNe =>
       do a <- as_pure "compare" ia; do c <- as_pure "compare" ib;
       match pv_kind a, pv_kind c with
-      | KLit va _, KLit vb _ =>
+      | KLit va0 _, KLit vb0 _ =>
+          do '(va, vb) <- (if fx_literals fx then
+                             match c11_vtypes (promoted_or_self (pv_ty a)) (promoted_or_self (pv_ty c)) with
+                             | Some (t, _) => ret (norm_lit t va0, norm_lit t vb0) | None => fail "TypeError" end
+                           else ret (va0, vb0));
           ret (IPure (bool_lit (match b with BLt => va <? vb | BGt => vb <? va | BLe => va <=? vb | BGe => vb <=? va
                                            | BEq => va =? vb | _ => negb (va =? vb) end)))
       | _, _ =>
-          do '(a', c') <- cast_operands false a c;
+          do '(a', c') <- (if fx_cmp_promote fx then do pa <- promotion_cast a; do pc <- promotion_cast c; cast_operands false pa pc
+                           else cast_operands false a c);
           do _ <- need_numeric (pv_ty a'); do _ <- need_numeric (pv_ty c');
           ret (IPure (mkpv (cmp_il_exec (match b with BLt => "<" | BGt => ">" | BLe => "<=" | BGe => ">=" | BEq => "==" | _ => "!=" end)
                                         (pv_ty a') (pv_ty c') (rd a') (rd c'))
@@ -432,9 +481,9 @@ Definition lower_binop (b : Ast.binop) (ia ib : item) : M item :=
       end
   | BLAnd | BLOr =>
       do a <- as_pure "boolean" ia; do c <- as_pure "boolean" ib;
-      do '(a', c') <- cast_operands false a c;
+      do '(a', c') <- (if fx_bool_int fx then ret (a, c) else cast_operands false a c);
       ret (IPure (mkpv (boolop_il_exec (match b with BLAnd => "&&" | _ => "||" end) (is_boolop a') (is_boolop c') (rd a') (rd c'))
-                       (pv_ty a') KBoolOp (pv_tmps a' ++ pv_tmps c')))
+                       (if fx_bool_int fx then ty_bool else pv_ty a') KBoolOp (pv_tmps a' ++ pv_tmps c')))
   end.
 
 Definition lower_unop (u : Ast.unop) (ia : item) : M item :=
@@ -448,7 +497,7 @@ Definition lower_unop (u : Ast.unop) (ia : item) : M item :=
           | UNot | UMinus =>
               do pa <- promotion_cast a;
               ret (IPure (mkpv (bitop_il_exec (match u with UNot => "~" | _ => "-" end) (pv_ty pa) (rd pa) (rd pa)) (pv_ty pa) KExec (pv_tmps pa)))
-          | ULNot => ret (IPure (mkpv (boolop_il_exec "!" (is_boolop a) false (rd a) (rd a)) (pv_ty a) KBoolOp (pv_tmps a)))
+          | ULNot => ret (IPure (mkpv (boolop_il_exec "!" (is_boolop a) false (rd a) (rd a)) (if fx_bool_int fx then ty_bool else pv_ty a) KBoolOp (pv_tmps a)))
           | _ => fail "Unary expression + not handled"
           end
       end
@@ -501,9 +550,9 @@ Definition lower_cast (t : tyspec) (ia : item) : M item :=
 
 Definition decl_type (t : tyspec) : M vtype := resolve_decl_ty t.
 
-Definition find_sub (cfg : config) (f : string) : option subsig :=
+Definition find_sub (f : string) : option subsig :=
   find (fun s => String.eqb (sub_name s) f) (cfg_subs cfg).
-Definition find_mac (cfg : config) (f : string) : option macsig :=
+Definition find_mac (f : string) : option macsig :=
   find (fun s => String.eqb (mac_name s) f) (cfg_macros cfg).
 
 (* cast_arg_list + build_arg_list *)
@@ -557,9 +606,15 @@ Definition compound_src (a : asgop) (dest src : pval) : M pval :=
   | AAssign => ret src
   | AAdd | ASub | AMul | ADiv =>
       do pd <- promotion_cast dest; do ps <- promotion_cast src;
-      let o := match a with AAdd => RzIL.BAdd | ASub => RzIL.BSub | AMul => RzIL.BMul | _ => RzIL.BDiv end in
+      let o := match a with AAdd => RzIL.BAdd | ASub => RzIL.BSub | AMul => RzIL.BMul
+                          | _ => if fx_divmod fx && vt_sg (pv_ty pd) then BSDiv else RzIL.BDiv end in
       ret (mkpv (arith_il_exec o (pv_ty pd) (pv_ty ps) (rd pd) (rd ps)) (pv_ty pd) KExec (pv_tmps pd ++ pv_tmps ps))
-  | AMod => ret (mkpv (arith_il_exec RzIL.BMod (pv_ty dest) (pv_ty src) (rd dest) (rd src)) (pv_ty dest) KExec (pv_tmps dest ++ pv_tmps src))
+  | AMod =>
+      if fx_divmod fx then
+        do pd <- promotion_cast dest; do ps <- promotion_cast src;
+        do '(pd', ps') <- cast_operands false pd ps;
+        ret (mkpv (arith_il_exec (if vt_sg (pv_ty pd') then BSMod else RzIL.BMod) (pv_ty pd') (pv_ty ps') (rd pd') (rd ps')) (pv_ty pd') KExec (pv_tmps pd' ++ pv_tmps ps'))
+      else ret (mkpv (arith_il_exec RzIL.BMod (pv_ty dest) (pv_ty src) (rd dest) (rd src)) (pv_ty dest) KExec (pv_tmps dest ++ pv_tmps src))
   | AShl | AShr =>
       do pd <- promotion_cast dest; do ps <- promotion_cast src;
       ret (mkpv (bitop_il_exec (match a with AShl => "<<" | _ => ">>" end) (pv_ty pd) (rd pd) (rd ps)) (pv_ty pd) KExec (pv_tmps pd ++ pv_tmps ps))
@@ -570,12 +625,9 @@ Definition compound_src (a : asgop) (dest src : pval) : M pval :=
 
 Definition has_tree (l : list item) : bool := existsb (fun i => match i with ITree _ => true | _ => false end) l.
 
-Section Traverse.
-  Variable cfg : config.
-
   Fixpoint lower_expr (e : cexpr) {struct e} : M item :=
     match e with
-    | EOp o => lower_operand cfg o
+    | EOp o => lower_operand o
     | ECast t a => do ia <- lower_expr a; lower_cast t ia
     | EUn u a => do ia <- lower_expr a; lower_unop u ia
     | EBin b l r => do il <- lower_expr l; do ir <- lower_expr r; lower_binop b il ir
@@ -592,7 +644,8 @@ Section Traverse.
             do pt <- as_pure "conditional" it; do pf <- as_pure "conditional" if_;
             do _ <- (match pv_kind pt with KTmp n true => update_gcc_branch n (cond_of pc) true | _ => ret tt end);
             do _ <- (match pv_kind pf with KTmp n true => update_gcc_branch n (cond_of pc) false | _ => ret tt end);
-            do '(pt', pf') <- cast_operands false pt pf;
+            do '(pt', pf') <- (if fx_cmp_promote fx then do ppt <- promotion_cast pt; do ppf <- promotion_cast pf; cast_operands false ppt ppf
+                               else cast_operands false pt pf);
             ret (IPure (mkpv (PIte (cond_of pc) (rd pt') (rd pf')) (pv_ty pt') KExec (pv_tmps pc ++ pv_tmps pt' ++ pv_tmps pf')))
         end
     | EAssign a l r =>
@@ -605,7 +658,11 @@ Section Traverse.
         do '(dest', src') <- (match a with
                               | AMod | AShr | AShl => ret (dest, src)
                               | _ => cast_operands true dest src end);
-        do src'' <- compound_src a dest' src';
+        do src0 <- compound_src a dest' src';
+        do src'' <- (match a with
+                     | AAssign => ret src0
+                     | _ => if fx_compound_conv fx then (do eq <- ty_eq (pv_ty dest') (pv_ty src0); if eq then ret src0 else init_a_cast (pv_ty dest') src0) else ret src0
+                     end);
         do asg <- mk_assign dest' src'';
         do r <- chk_hybrid_dep asg false false;
         match chained with
@@ -631,7 +688,7 @@ Section Traverse.
         do items <- lower_exprs args;
         if String.eqb f "fatal" then ret (IEff empty_eff)
         else if String.eqb f "MEM_STORE0" then do _ <- touch; ret (IEff (mkle ENop [] false))
-        else match find_sub cfg f with
+        else match find_sub f with
         | Some sg =>
             do '(al, tm) <- lower_args items (sub_params sg);
             do _ <- touch;
@@ -650,7 +707,7 @@ Section Traverse.
         end
     | EMacro m args =>
         do items <- lower_exprs args;
-        match find_mac cfg m with
+        match find_mac m with
         | None => fail "Macro is not defined"
         | Some mg =>
             do '(al, tm) <- lower_args items (mac_params mg);
@@ -664,7 +721,7 @@ Section Traverse.
     | ELoad sg w args =>
         do items <- lower_exprs args;
         match items with
-        | [IPure va] => do _ <- touch; ret (IPure (mkpv (PLoad w (rd va)) (ty_tok sg w) KExec (pv_tmps va)))
+        | [IPure va0] => do va <- addr_of va0; do _ <- touch; ret (IPure (mkpv (PLoad w (rd va)) (ty_tok sg w) KExec (pv_tmps va)))
         | _ => fail "mem_load address"
         end
     | EStmtExpr items last =>
@@ -760,7 +817,7 @@ Section Traverse.
         do items <- lower_exprs args;
         match items with
         | [iva; IPure data] =>
-            do va <- as_pure "mem_store address" iva;
+            do va0 <- as_pure "mem_store address" iva; do va <- addr_of va0;
             do eq <- ty_eq (ty_tok sg w) (pv_ty data);
             do d <- (if eq then ret data else init_a_cast (ty_tok sg w) data);
             do _ <- touch;
@@ -875,20 +932,29 @@ Definition init_state (cfg : config) : lstate := mkst [] [] [] (cfg_hstart cfg) 
 Definition item_effects (i : item) : list effect :=
   match i with IEff e | IVoid e | IAsg e _ => if le_empty e then [] else [le_term e] | _ => [] end.
 
-(* fbody + emit_final_seq_return at tree level *)
-Definition tlower (cfg : config) (prog : cstmts) : res (effect * N) :=
+(* fbody + emit_final_seq_return at tree level.  Besides the effect and the hybrid counter the
+   result records two facts the guards need: how many pending hybrids were left over at the top
+   (they are hoisted to the front: D4) and whether any top-level item was dropped by the final
+   `isinstance(op, Effect)` filter although it is a raw parse tree / token (D7). *)
+Record tinfo := mkti { ti_eff : effect; ti_hcount : N; ti_leftover : nat; ti_dropped : bool; ti_removed : list string }.
+
+Definition tlower_info (cfg : config) (prog : cstmts) : res tinfo :=
   match lower_stmts cfg prog (init_state cfg) with
   | Err e => Err e
   | OK (items, s) =>
-      if negb (st_nonempty s) then OK (ENop, st_hcount s) else
+      let dropped := existsb (fun i => match i with ITree _ | ITok _ => true | _ => false end) items in
+      if negb (st_nonempty s) then OK (mkti ENop (st_hcount s) 0 dropped []) else
       let left := map pend_effect (st_pending s) in
       (* an immediate whose declaration was removed (dead ?: arm) and not re-created: its prologue reads an undeclared C variable *)
       let imms := map (fun e => match e with
                                 | ESetL x (PImm _ _ _) => if existsb (fun v => String.eqb (fst v) x) (st_vars s) then e else ESetL x (PRaw x)
                                 | _ => e end) (st_imms s) in
       let effs := imms ++ left ++ flat_map item_effects items in
-      OK (fin_eff (st_regs s) (st_removed s) (seqn effs), st_hcount s)
+      OK (mkti (fin_eff (st_regs s) (st_removed s) (seqn effs)) (st_hcount s) (List.length left) dropped (st_removed s))
   end.
+
+Definition tlower (cfg : config) (prog : cstmts) : res (effect * N) :=
+  match tlower_info cfg prog with OK i => OK (ti_eff i, ti_hcount i) | Err m => Err m end.
 
 (* a Python float (literal division) reaching an emitted effect raises a format error in the
    default layout; tlower_checked applies that rule *)
